@@ -83,7 +83,11 @@ class Rig:
         return pipemod.quiesce(self.pipe, timeout, extra_activity=lambda: len(self.log))
 
     def wait(self, predicate, timeout=5.0):
-        """Wait until predicate() or the rig is idle (predicted effect seen, or nothing moves any more)."""
+        """Wait until predicate() or the rig is idle (predicted effect seen, or nothing moves any more).
+
+        Idleness is only believed after it persisted over several samples spanning >= 60 ms: a thread that was just
+        woken (Event.set) still looks parked until the OS schedules it.
+        """
         deadline = time.monotonic() + timeout
         while time.monotonic() < deadline:
             if predicate():
@@ -91,9 +95,7 @@ class Rig:
             if self.pipe.inbox_empty() and stuck.wait_idle(self.activity, timeout=0.02, settle=0.002, samples=3):
                 if predicate():
                     return True
-                # confirm idleness once more after a grace period before giving up
-                time.sleep(0.02)
-                if self.pipe.inbox_empty() and stuck.wait_idle(self.activity, timeout=0.05, settle=0.004, samples=3):
+                if self.pipe.inbox_empty() and stuck.wait_idle(self.activity, timeout=0.3, settle=0.012, samples=6):
                     return predicate()
             time.sleep(0.0005)
         return predicate()
